@@ -162,13 +162,15 @@ def random_op(rng, model):
              "set_scalar", "set_fn", "set_obs", "add_af", "read"]
     if have:
         kinds += ["unary", "binary", "scalar", "expr", "eval", "expr", "eval", "unary", "binary", "coord",
-                  "anyop", "anyop", "anyop", "expr_unknown"]
+                  "anyop", "anyop", "anyop", "expr_unknown", "sibling", "swap_with_sibling"]
     k = rng.choice(kinds)
     name = rng.choice(NAMES)
     if k in ("create_list", "create_scalar", "remove", "delete_item", "update_list", "update_scalar", "set_list",
              "set_scalar", "set_fn", "set_obs", "add_af", "read"):
         return (k, name)
     i1, i2, o = rng.choice(have), rng.choice(have), rng.choice(NAMES)
+    if k in ("sibling", "swap_with_sibling"):
+        return (k,)
     if k == "expr_unknown":
         # an expression that names a feature the track does not have (a misspelt name): it cannot be evaluated; the
         # sub-expressions before the unknown name have already produced temporaries when the evaluation stops
@@ -294,6 +296,7 @@ class Runner:
         self.flags = set()
         self.deleted_nonlast = set()   # names that survived a non-last deletion
         self.deleted_names = set()
+        self.siblings = []             # [track, model, exact] of tracks derived from this one (separate lives)
         self.big = set()               # names holding integers beyond 2**53: only copied, never fed to float arithmetic
         self.exact = set()             # names whose model values are verbatim what was written (not recomputed by the model)
         # a second, unrelated track with the SAME feature names in the opposite column order, of another size; it is
@@ -499,6 +502,29 @@ class Runner:
             model[o] = [SCALAR[opn](x, kk) for x in model[i1]]
             self.exact.discard(o)
             status = "ok"
+        elif k == "sibling":
+            # a second track derived from this one through a public operation whose result owns its observations
+            # (time-span extraction over the whole range copies them): from now on the two tracks lead separate
+            # lives -- what is done to one must not show on the other
+            if len(self.siblings) >= 2 or not model:
+                return "skip", None, None
+            ts = tr.getTimestamps()
+            sib = M.call(tr.extractSpanTime, min(ts), max(ts))
+            if M.is_raised(sib) or sib.size() != n or any(a is b for a, b in zip(sib.getObsList(), tr.getObsList())):
+                self.ctx.count("sibling_not_available")
+                return "skip", None, None
+            self.siblings.append([sib, {k2: list(v) for k2, v in model.items()}, set(self.exact),
+                                  {c: list(v) for c, v in self.coords.items()}])
+            self.flags.add("sibling_track")
+            return "noop", (lambda: None), None
+        elif k == "swap_with_sibling":
+            if not self.siblings:
+                return "skip", None, None
+            sib = self.siblings.pop(0)
+            self.siblings.append([self.tr, self.model, self.exact, self.coords])
+            self.tr, self.model, self.exact, self.coords = sib[0], sib[1], sib[2], sib[3]
+            self.flags.add("sibling_track_becomes_the_edited_one")
+            return "noop", (lambda: None), None
         elif k == "expr_unknown":
             e = op[1]
             import re
@@ -609,6 +635,27 @@ class Runner:
                         "expected": self.coords[c]}
         if [gen.obstime_fields(t) for t in tr.getTimestamps()] != self.T:
             return {"what": "timestamps changed as a side effect"}
+        for si, (sib, smodel, sexact, scoords) in enumerate(self.siblings):
+            self.ctx.monitor("sibling.unaffected")
+            lst = M.call(sib.getListAnalyticalFeatures)
+            if M.is_raised(lst) or sorted(lst) != sorted(smodel.keys()):
+                return {"what": "a track derived from this one earlier (its observations are its own) no longer lists "
+                                "its own features after an operation on the other track", "sibling": si,
+                        "listed": lst, "expected": sorted(smodel.keys())}
+            for o in sib.getObsList():
+                if len(o.features) != len(lst):
+                    return {"what": "a derived track's observation does not carry exactly one value per listed "
+                                    "feature after an operation on the other track", "sibling": si,
+                            "n_values": len(o.features), "listed": lst}
+            for name, exp in smodel.items():
+                got = M.call(sib.getAnalyticalFeature, name)
+                if M.is_raised(got) or not (_seq_veq(got, exp) if name in sexact else M.seq_eq(got, exp)):
+                    return {"what": "a derived track no longer reads the values it had, after an operation on the "
+                                    "other track", "sibling": si, "name": name, "got": got, "expected": exp}
+            for c, getter in (("x", sib.getX), ("y", sib.getY), ("z", sib.getZ)):
+                if not M.seq_eq(list(getter()), scoords[c]):
+                    return {"what": "a derived track's coordinate %s changed after an operation on the other track" % c,
+                            "sibling": si}
         return None
 
     def step(self, op):
@@ -618,7 +665,9 @@ class Runner:
             return None
         self.applied.append(tuple(op))
         r = M.call(call)
-        if status == "must_fail":
+        if status == "noop":
+            pass
+        elif status == "must_fail":
             # error path: the call is expected to raise; afterwards no temporary may be listed, the table must be
             # aligned and every name other than the assignment target must read as before (compare() below)
             target = expect_return
@@ -750,7 +799,7 @@ def classify(case, witness):
 _floors_base = floors
 _FLOORS_EXTRA = {'monitors': {'decoy.unchanged': 50000, 'failed_expression.state_consistent': 500,
                               'anyop.returned_list_is_what_is_read': 3000},
-                 'classes': {'shift_by_whole_turns': 500, 'expression_through_item_access': 2000}}
+                 'classes': {'shift_by_whole_turns': 500, 'expression_through_item_access': 2000, 'sibling_track': 1000}}
 
 
 def floors(tier):
